@@ -80,7 +80,7 @@ pub const CORE: Alphabet = Alphabet { leaves: LEAVES, unary: UNARY, binary: BINA
 /// default of another one
 pub const CONTROL: Alphabet = Alphabet {
     leaves: &[("False", "$!"), ("Number", "1")],
-    unary: &["Not", "Group"],
+    unary: &["Not", "Tis", "Group"],
     binary: &["JumpIfTrue", "JumpIfFalse", "ElseJump", "And", "Or", "Addition"],
 };
 
